@@ -1227,6 +1227,52 @@ def slice_contains(I, a, n):
     return False
 
 
+@model(r"^std::ops::RangeInclusive::new$|^core::ops::RangeInclusive::new$")
+def range_inclusive_new(I, a, n):
+    return Agg("std::ops::RangeInclusive", [a[0], a[1], False])
+
+
+@model(r"^core::slice::binary_search$")
+def slice_binary_search(I, a, n):
+    """std's binary_search_by (1.82+): halve `size`, keep `base`, one final comparison.  Modelled step for step, because what it
+    returns on a slice that is NOT sorted is exactly what a caller that forgot to sort depends on."""
+    s = vec_as_slice(I, a, n)
+    xs = list(s.view())
+    x = deref(a[1])
+    size = len(xs)
+    if size == 0:
+        return ERR(0)
+    base = 0
+    while size > 1:
+        half = size // 2
+        mid = base + half
+        c = cmp_vals(I, xs[mid], x)
+        base = base if c > 0 else mid
+        size -= half
+    c = cmp_vals(I, xs[base], x)
+    if c == 0:
+        return OK(base)
+    return ERR(base + (1 if c < 0 else 0))
+
+
+@model(r"^std::ops::Range::contains$|^core::ops::Range::contains$|^std::ops::RangeInclusive::contains$|^core::ops::RangeInclusive::contains$")
+def range_contains(I, a, n):
+    r = deref(a[0])
+    x = deref(a[1])
+    lo, hi = deref(r.fields[0]), deref(r.fields[1])
+    incl = "RangeInclusive" in n
+    def le(p, q, strict):
+        if is_sym(p) or is_sym(q):
+            P = p if is_sym(p) else z3.BitVecVal(p, q.size())
+            Q = q if is_sym(q) else z3.BitVecVal(q, p.size())
+            return z3.ULT(P, Q) if strict else z3.ULE(P, Q)
+        return (p < q) if strict else (p <= q)
+    c1, c2 = le(lo, x, False), le(x, hi, not incl)
+    if isinstance(c1, bool) and isinstance(c2, bool):
+        return c1 and c2
+    return z3.And(c1 if not isinstance(c1, bool) else z3.BoolVal(c1), c2 if not isinstance(c2, bool) else z3.BoolVal(c2))
+
+
 @model(r"^core::slice::reverse$")
 def slice_reverse(I, a, n):
     s = vec_as_slice(I, a, n)
